@@ -1,4 +1,6 @@
 import ScrapliModel.Lemmas.HelloFrame
+import ScrapliModel.Netconf.HelloState
+import ScrapliModel.Generated.C09State
 import ScrapliModel.Generated.BodiesNetconf
 /-!
 # C09 — NETCONF session establishment negotiates the right version or fails cleanly
@@ -368,5 +370,224 @@ theorem generated_determineVersion_eq {P : Type} (caps : List Bytes) (pref : Byt
   cases h11 : hasCap caps Gen.Netconf.v1Dot1Cap <;> cases h10 : hasCap caps Gen.Netconf.v1Dot0Cap <;>
     cases hp0 : pref == Gen.Netconf.V1Dot0 <;> cases hp1 : pref == Gen.Netconf.V1Dot1 <;>
     simp [hne, Ver.str]
+
+/-! ## histories: probes, several Opens, Closes on ONE driver object -/
+
+theorem touch_false (s : DState) : touch false s = s := rfl
+theorem lookup_false (s : DState) (c : Bytes) : lookup false s c = s.caps.contains c := rfl
+
+/-- a probe (every public getter) leaves the driver state exactly as it was -/
+theorem probe_keeps_state (reopen : Bool) (s : DState) (c : Bytes) :
+    (step false reopen s (.probe c)).1 = s := rfl
+
+/-- **A probe is pure.** In every history, deleting all probes (wherever they stand: before the
+first `Open`, between sessions, after a `Close`) changes neither the outcome of any `Open` / `Close`
+nor the final state. -/
+theorem probe_is_pure (reopen : Bool) (s : DState) (evs : List Ev) :
+    (run false reopen s evs).filter (fun o => !o.isProbe)
+      = run false reopen s (evs.filter (fun e => !e.isProbe)) ∧
+    final false reopen s evs = final false reopen s (evs.filter (fun e => !e.isProbe)) := by
+  induction evs generalizing s with
+  | nil => exact ⟨rfl, rfl⟩
+  | cons e es ih =>
+    cases e with
+    | probe c =>
+      have := ih s
+      simpa [run, final, step, Ev.isProbe, Obs.isProbe, touch_false] using this
+    | close =>
+      have := ih (step false reopen s .close).1
+      simp only [run, final, List.filter_cons, Ev.isProbe, Bool.not_false, if_true]
+      refine ⟨?_, this.2⟩
+      simp only [step, Obs.isProbe, Bool.not_false, if_true, List.cons.injEq, true_and]
+      exact this.1
+    | openNoHello =>
+      have := ih (step false reopen s .openNoHello).1
+      simp only [run, final, List.filter_cons, Ev.isProbe, Bool.not_false, if_true]
+      refine ⟨?_, this.2⟩
+      have hnp : (step false reopen s .openNoHello).2.isProbe = false := by
+        simp only [step]; split <;> rfl
+      simp only [hnp, Bool.not_false, if_true, List.cons.injEq, true_and]
+      exact this.1
+    | openHello parsed pref =>
+      have := ih (step false reopen s (.openHello parsed pref)).1
+      simp only [run, final, List.filter_cons, Ev.isProbe, Bool.not_false, if_true]
+      refine ⟨?_, this.2⟩
+      have hnp : (step false reopen s (.openHello parsed pref)).2.isProbe = false := by
+        simp only [step]
+        split
+        · rfl
+        · split <;> rfl
+      simp only [hnp, Bool.not_false, if_true, List.cons.injEq, true_and]
+      exact this.1
+
+example : (fun e : Ev => !e.isProbe) (.probe [1]) = false ∧ (fun e : Ev => !e.isProbe) .close = true := by
+  decide
+
+/-- the state-level decision is the list-level `determineVersion` -/
+theorem decideVer_result (caps : List Bytes) (pref : Bytes) :
+    (decideVer (hasCap caps Gen.Netconf.v1Dot0Cap) (hasCap caps Gen.Netconf.v1Dot1Cap) pref).2
+      = determineVersion caps pref := by
+  unfold decideVer determineVersion
+  cases hasCap caps Gen.Netconf.v1Dot0Cap <;> cases hasCap caps Gen.Netconf.v1Dot1Cap <;>
+    cases pref == Gen.Netconf.V1Dot0 <;> cases pref == Gen.Netconf.V1Dot1 <;> simp
+
+/-- what one negotiation yields, written WITHOUT any reference to the driver's earlier state -/
+def negotiationOutcome (parsed : Bool × List Bytes × Option Bytes) (pref : Bytes) : Option Ver :=
+  if !parsed.1 then none
+  else match sidValue parsed.2.2 with
+    | none => none
+    | some _ => determineVersion parsed.2.1 pref
+
+/-- **The negotiation depends on the last hello only** (state level). Whatever the driver went
+through before — any earlier capabilities, session-id, selected version — the result of
+negotiating on a hello is `negotiationOutcome` of that hello and the preference; after a success
+the stored capabilities are exactly the hello's, `SelectedVersion` is the result,
+`ServerHasCapability` answers membership in the hello's list, and the session-id is the hello's
+whenever the hello carries one. -/
+theorem negotiate_last_hello_only (s : DState) (parsed : Bool × List Bytes × Option Bytes)
+    (pref : Bytes) :
+    (negotiate false s parsed pref).2 = negotiationOutcome parsed pref ∧
+    ∀ v, (negotiate false s parsed pref).2 = some v →
+      (negotiate false s parsed pref).1.caps = parsed.2.1 ∧
+      (negotiate false s parsed pref).1.sel = v.str ∧
+      (∀ c, lookup false (negotiate false s parsed pref).1 c = parsed.2.1.contains c) ∧
+      (∀ ds, parsed.2.2 = some ds → some (negotiate false s parsed pref).1.sid = sidValue (some ds)) := by
+  obtain ⟨hello, caps, sid⟩ := parsed
+  cases hello with
+  | false => simp [negotiate, negotiationOutcome]
+  | true =>
+    cases sid with
+    | none =>
+      simp only [negotiate, negotiationOutcome, sidValue, Bool.not_true, Bool.false_eq_true, if_false,
+        lookup_false, touch_false, decideVer, determineVersion, hasCap]
+      by_cases h10 : Gen.Netconf.v1Dot0Cap ∈ caps <;>
+        by_cases h11 : Gen.Netconf.v1Dot1Cap ∈ caps <;>
+        rcases Bool.eq_false_or_eq_true (pref == Gen.Netconf.V1Dot0) with hp0 | hp0 <;>
+        rcases Bool.eq_false_or_eq_true (pref == Gen.Netconf.V1Dot1) with hp1 | hp1 <;>
+        simp [h10, h11, hp0, hp1]
+    | some ds =>
+      cases hv : sidValue (some ds) with
+      | none => simp [negotiate, negotiationOutcome, hv]
+      | some n =>
+        simp only [negotiate, negotiationOutcome, hv, Bool.not_true, Bool.false_eq_true, if_false,
+          lookup_false, touch_false, decideVer, determineVersion, hasCap]
+        by_cases h10 : Gen.Netconf.v1Dot0Cap ∈ caps <;>
+          by_cases h11 : Gen.Netconf.v1Dot1Cap ∈ caps <;>
+          rcases Bool.eq_false_or_eq_true (pref == Gen.Netconf.V1Dot0) with hp0 | hp0 <;>
+          rcases Bool.eq_false_or_eq_true (pref == Gen.Netconf.V1Dot1) with hp1 | hp1 <;>
+          simp [h10, h11, hp0, hp1, hv]
+
+/-- **History level.** Take ANY two histories `h1`, `h2` (any probes, Opens against any hellos,
+Closes, from any start states) after which the driver can still open (always, if the channel is
+re-openable; as built: as long as the channel was never closed). An `Open` against the same hello
+then has the same outcome after both, and if it succeeds every later probe answers the same:
+version, capabilities, `ServerHasCapability` and (for a hello that carries one) the session-id are a
+function of the LAST hello only. -/
+theorem negotiation_depends_on_last_hello_only (reopen : Bool) (a b : DState) (h1 h2 : List Ev)
+    (parsed : Bool × List Bytes × Option Bytes) (pref : Bytes) (probes : List Bytes) (ds : Bytes)
+    (hsid : parsed.2.2 = some ds)
+    (hl1 : ((final false reopen a h1).dead && !reopen) = false)
+    (hl2 : ((final false reopen b h2).dead && !reopen) = false) :
+    (step false reopen (final false reopen a h1) (.openHello parsed pref)).2
+      = (step false reopen (final false reopen b h2) (.openHello parsed pref)).2 ∧
+    (∀ v, (step false reopen (final false reopen a h1) (.openHello parsed pref)).2 = .opened v →
+      run false reopen (step false reopen (final false reopen a h1) (.openHello parsed pref)).1
+          (probes.map .probe)
+        = run false reopen (step false reopen (final false reopen b h2) (.openHello parsed pref)).1
+          (probes.map .probe)) := by
+  generalize final false reopen a h1 = s1 at *
+  generalize final false reopen b h2 = s2 at *
+  have n1 := negotiate_last_hello_only { s1 with dead := false } parsed pref
+  have n2 := negotiate_last_hello_only { s2 with dead := false } parsed pref
+  have probes_eq : ∀ (t1 t2 : DState), t1.caps = t2.caps → t1.sid = t2.sid → t1.sel = t2.sel →
+      run false reopen t1 (probes.map .probe) = run false reopen t2 (probes.map .probe) := by
+    induction probes with
+    | nil => intros; rfl
+    | cons c cs ih =>
+      intro t1 t2 hc hs hl
+      simp only [List.map_cons, run, step, touch_false, lookup_false, hc, hs, hl, List.cons.injEq, true_and]
+      exact ih t1 t2 hc hs hl
+  simp only [step, hl1, hl2, Bool.false_eq_true, if_false]
+  rcases e1 : negotiate false { s1 with dead := false } parsed pref with ⟨t1, r1⟩
+  rcases e2 : negotiate false { s2 with dead := false } parsed pref with ⟨t2, r2⟩
+  rw [e1] at n1
+  rw [e2] at n2
+  simp only at n1 n2
+  have hr : r1 = r2 := by rw [n1.1, n2.1]
+  subst hr
+  cases r1 with
+  | none => simp
+  | some v =>
+    obtain ⟨c1, l1, _, sd1⟩ := n1.2 v rfl
+    obtain ⟨c2, l2, _, sd2⟩ := n2.2 v rfl
+    refine ⟨rfl, fun _ _ => ?_⟩
+    apply probes_eq
+    · simp [c1, c2]
+    · have := (sd1 ds hsid).trans (sd2 ds hsid).symm
+      simpa using this
+    · simp [l1, l2]
+
+example : ((final false false DState.init [.probe [1], .probe [2]]).dead && !false) = false ∧
+    ((final false true DState.init [.openHello (true, [Gen.Netconf.v1Dot0Cap], some [55]) [], .close]).dead
+      && !true) = false := by decide
+
+/-- as built: a hello WITHOUT session-id leaves the previous value of `sessionID` in place
+(`processServerCapabilities` returns before assigning). Unreachable through the public API today
+only because a driver object cannot be opened twice. -/
+theorem session_id_kept_when_absent (s : DState) (caps : List Bytes) (pref : Bytes) :
+    (negotiate false s (true, caps, none) pref).1.sid = s.sid := by
+  simp only [negotiate, sidValue, Bool.not_true, Bool.false_eq_true, if_false, lookup_false, touch_false]
+  rcases decideVer (caps.contains Gen.Netconf.v1Dot0Cap) (caps.contains Gen.Netconf.v1Dot1Cap) pref
+    with ⟨st, r⟩
+  cases st <;> cases r <;> rfl
+
+/-- as built: once the channel was closed (by `Close` or by a failed `Open`) every later `Open`
+fails with a connection error and changes nothing -/
+theorem asBuilt_single_use (s : DState) (e : Ev) (hd : s.dead = true)
+    (he : (∃ p q, e = .openHello p q) ∨ e = .openNoHello) :
+    step false false s e = (s, .openDead) := by
+  rcases he with ⟨p, q, rfl⟩ | rfl <;> simp [step, hd]
+
+/-- **Negative witness (frozen index, the shape of seeded change C09k).** With a capability index
+that is built once and never rebuilt, one `ServerHasCapability` call before `Open` makes the `Open`
+reject a hello advertising both base versions, while without the call it selects 1.1: the probe is
+not pure; and on a re-openable channel a second session against a 1.0-only server still
+"negotiates" 1.1 from the first session's capabilities: the outcome does not depend on the last
+hello only. -/
+theorem frozen_index_violates_both :
+    let both : Bool × List Bytes × Option Bytes :=
+      (true, [Gen.Netconf.v1Dot0Cap, Gen.Netconf.v1Dot1Cap], some [49])
+    let only10 : Bool × List Bytes × Option Bytes := (true, [Gen.Netconf.v1Dot0Cap], some [50])
+    run true false DState.init [.probe Gen.Netconf.v1Dot0Cap, .openHello both []]
+      = [.probed false [] 0 [], .openErr .netconf] ∧
+    run true false DState.init [.openHello both []] = [.opened .v11] ∧
+    run false false DState.init [.probe Gen.Netconf.v1Dot0Cap, .openHello both []]
+      = [.probed false [] 0 [], .opened .v11] ∧
+    run true true DState.init [.openHello both [], .close, .openHello only10 []]
+      = [.opened .v11, .closed, .opened .v11] ∧
+    run false true DState.init [.openHello both [], .close, .openHello only10 []]
+      = [.opened .v11, .closed, .opened .v10] := by decide
+
+/-! ## tie of the history model to the source (facts regenerated by `gen_c09.go` on every run) -/
+
+/-- obligation: `ServerHasCapability` touches the capability list and nothing else of the driver
+(no cache, no index, no once-guard): the `frozen = false` lookup of the history model -/
+theorem hasCap_reads_only_capability_list :
+    Gen.C09State.hasCapFound = true ∧ Gen.C09State.hasCapReceiverRefs = ["serverCapabilities"] := by
+  decide
+
+/-- obligation: `processServerCapabilities` replaces the capability list unconditionally (top
+level of its body, before any statement that can return nil), and it is the only function of the
+package that assigns the list: `negotiate`'s `{ s with caps := caps }` -/
+theorem processCaps_assigns_list_unconditionally :
+    Gen.C09State.procCapsFound = true ∧
+    "serverCapabilities" ∈ Gen.C09State.procCapsAssignsBeforeSuccessReturn ∧
+    Gen.C09State.capabilityListWriters = ["processServerCapabilities"] := by decide
+
+/-- the session-id is assigned at the top level too, but only after the early `return nil` for a
+hello without session-id — exactly the model's `session_id_kept_when_absent` -/
+theorem processCaps_sessionID_after_early_return :
+    "sessionID" ∈ Gen.C09State.procCapsTopLevelAssigns ∧
+    "sessionID" ∉ Gen.C09State.procCapsAssignsBeforeSuccessReturn := by decide
 
 end Scrapli.Netconf.C09
